@@ -382,8 +382,8 @@ func run(c *runner.Ctx) {
 			files = append(files, one{[]inject.FieldVariant{f}, f.Shape})
 		}
 		mb := m3
-		if !c.Thorough() && len(mb) > 9 {
-			mb = mb[:9]
+		if !c.Thorough() && len(mb) > 5 {
+			mb = mb[:5]
 		}
 		for _, f := range mb {
 			for _, g := range mb {
